@@ -134,6 +134,8 @@ RAW.append(("tmp-ifexp-literals", 8, ["t = 1 if s.in1 else 200", "{o} @= t"]))
 for w, e in [(7, "s.in8[0:(~Bits3(1)) >> Bits3(1)]"), (3, "s.in8[0:(~Bits3(1)) >> Bits3(1)]"), (8, "s.in8 + (~Bits8(1))"), (8, "s.in8 ^ Bits8(-3)"), (4, "(~Bits4(5)) % Bits4(7)")]:
   RAW.append((f"masked-constant:o{w}<-{e}", w, ["{o} @= " + e]))
 RAW.append(("masked-constant:loop-bound", 1, ["for i in range((~Bits4(5)) % Bits4(7)):", "  {o} @= i"]))
+RAW.append(("int-to-struct:3000", 8, ["{ost} @= 3000", "{o} @= s.in8"]))
+RAW.append(("int-to-struct:200", 8, ["{ost} @= 200", "{o} @= s.in8"]))
 for w, e in [(4, "1 if s.in1 else 200"), (4, "200 if s.in1 else 1"), (8, "1 if s.in1 else 200"), (4, "s.in4a + (1 if s.in1 else 200)"), (4, "1 if s.in1 else 9")]:
   RAW.append((f"ifexp-literals:o{w}<-{e}", w, ["{o} @= " + e]))
 
@@ -141,8 +143,9 @@ for w, e in [(4, "1 if s.in1 else 200"), (4, "200 if s.in1 else 1"), (8, "1 if s
 def block_src(k, text, form):
   name, w = form
   if name == "raw":
-    lines = [l.replace("{o}", f"s.o{w}_{k}") for l in text.split("\n")]
-    return [f"    s.o{w}_{k} = OutPort( Bits{w} )"], [f"    @update", f"    def blk_{k}():"] + ["      " + l for l in lines]
+    lines = [l.replace("{o}", f"s.o{w}_{k}").replace("{ost}", f"s.ost_{k}") for l in text.split("\n")]
+    decl = [f"    s.o{w}_{k} = OutPort( Bits{w} )"] + ([f"    s.ost_{k} = OutPort( St10 )"] if "{ost}" in text else [])
+    return decl, [f"    @update", f"    def blk_{k}():"] + ["      " + l for l in lines]
   body = []
   if "te" in text.replace("trunc", "").replace("zext", "").replace("sext", "") .split("(") or " te" in text or "(te" in text: pass
   pre = []
